@@ -231,7 +231,10 @@ func checkVersionedLeaves(c *props.Ctx, rep reporter, leaves []leaf) {
 			exempt[f] = true // lazy materialisation inside the reader is not an update
 		}
 		if fj := methodOf(named, "FromJSON"); fj != nil {
-			exempt[fj] = true // initialiser of a freshly created node (graph load)
+			// initialiser of a freshly created node (graph load), with the private helpers only it calls
+			for f := range ci.Region(fj) {
+				exempt[f] = true
+			}
 		}
 		checked := 0
 		for _, fn := range fns {
